@@ -93,6 +93,60 @@ func suiteTopK(c *Ctx) {
 		}
 		topkCase(c, k, er, acc, redis)
 	}
+	topkLarge(c, false)
+	topkLarge(c, true)
+}
+
+// topkLarge: more tracked entries than any page / batch size an implementation might read the
+// heap in (k = 1500, 1100 distinct elements).  Oracle only (no per-step replay): Values has exactly
+// min(k, distinct) entries, no duplicates, descending counts, every count >= the true total.
+func topkLarge(c *Ctx, redis bool) {
+	k, n := uint(1500), 1100+c.rng.Intn(150)
+	cfg := fmt.Sprintf("topk(k=%d,errorRate=0.001,accuracy=0.5,redis=%v), %d distinct elements", k, redis, n)
+	t := newTopK(k, 0.001, 0.5, redis)
+	if t == nil {
+		return
+	}
+	c.rep.Cases++
+	truth := map[string]uint64{}
+	var total uint64
+	for i := 0; i < n; i++ {
+		e := fmt.Sprintf("large-%d-%d", c.seed, i)
+		cnt := uint64(1 + (i*7)%50)
+		if err := t.Insert([]byte(e), cnt); err != nil {
+			return
+		}
+		truth[e] += cnt
+		total += cnt
+	}
+	c.op("Insert.large")
+	vals, err := t.Values()
+	if err != nil {
+		c.fail([]string{"C04", "C08"}, "topk-values-fails", cfg+": "+err.Error(), cfg)
+		return
+	}
+	es := topkElems(vals)
+	seen := map[string]bool{}
+	bad := ""
+	if len(es) != n {
+		bad = fmt.Sprintf("Values has %d entries, expected %d", len(es), n)
+	}
+	for i, e := range es {
+		if seen[e.V] {
+			bad = fmt.Sprintf("element %q is reported twice", e.V)
+		}
+		seen[e.V] = true
+		if e.F < truth[e.V] || e.F > total {
+			bad = fmt.Sprintf("element %q reported with count %d, true total %d, stream total %d", e.V, e.F, truth[e.V], total)
+		}
+		if i > 0 && (es[i-1].F < e.F || (es[i-1].F == e.F && es[i-1].V > e.V)) {
+			bad = fmt.Sprintf("entries %d and %d are out of order", i-1, i)
+		}
+	}
+	if bad != "" {
+		c.fail([]string{"C04", "C08"}, "topk-large-values", cfg+": "+bad, cfg)
+	}
+	c.branch("large-k")
 }
 
 func topkCase(c *Ctx, k uint, er, acc float64, redis bool) {
